@@ -1,4 +1,4 @@
-import ShuttleProofs.Lemmas.PctNext
+import ShuttleProofs.Lemmas.PctRun
 
 /-!
 # Concrete scheduler states used by the non-vacuity examples of `ShuttleProofs.C11`
@@ -58,5 +58,20 @@ def exFirstS : PctState := exFirst.getD ex0
 def exSecondS : PctState := exSecond.getD ex0
 def exSecond1S : PctState := exSecond1.getD ex0
 def exSecond2S : PctState := exSecond2.getD ex0
+
+end ShuttleProofs.Pct
+
+namespace ShuttleProofs.Pct
+open ShuttleModel ShuttleModel.Pct
+
+/-- The bodies of the two executions above as call lists (for the run-level theorems). -/
+def exBody1 : List Call :=
+  [.task [0] none false, .task [0, 1] (some 0) false, .task [0, 1, 2] (some 0) false,
+   .task [1, 2] (some 0) true, .u64, .task [2] (some 1) false]
+def exBody2 : List Call :=
+  [.task [0, 1, 17] (some 0) false, .task [0, 1, 17] (some 0) false]
+
+/-- A scheduler that ran one execution without any multi-choice decision (`max_steps = 0`). -/
+def exNoConc : PctState := (stepOk (execOk (some ex0)) [0] none false).getD ex0
 
 end ShuttleProofs.Pct
